@@ -219,6 +219,25 @@ def check_single(ctx, case):
                     judge(ctx, 'single-after-refused-update:%r' % (spec,), obj, [spec], X, T, 'single correlation %s after a refused update' % _short(spec))
     elif status not in ('no-conflict-possible',):
         ctx.fail('conflicting-update-not-refused:%s' % status, 'update with conflicting data (no overwrite) on %s: %s' % (_short(spec), status))
+    # a COPY is a separate correlation: stripping the copy of its heat-capacity points (one by one) leaves the original - its data,
+    # its range and what it answers inside and outside the range - as it was
+    if spec['Ts'] and status in ('refused', 'no-conflict-possible'):
+        before = TG.state_of(obj)
+        try:
+            twin = obj.copy()
+            for T in list(spec['Ts']):
+                twin.del_ND_Cp(T)
+        except Exception as e:
+            ctx.event('copy-strip-raised:%s' % type(e).__name__)
+        else:
+            ctx.count()
+            ctx.event('copy-stripped')
+            if TG.state_of(obj) != before:
+                ctx.fail('original-changed-through-its-copy', 'after deleting the Cp points of obj.copy(): original %s -> %s' % (before, TG.state_of(obj)))
+            else:
+                for T in temps_for([eff])[:6]:
+                    for X in PROPS:
+                        judge(ctx, 'single-after-copy-stripped:%r' % (spec,), obj, [spec], X, T, 'single correlation %s after its copy was stripped' % _short(spec))
 
 
 def _short(s):
@@ -357,12 +376,79 @@ def check_shipped(ctx, case):
     judge_array(ctx, g, [spec], 'shipped %s/%s %s' % (case['lib'], case['group'], _short(spec)))
 
 
+# -- estimates over the shipped libraries: the property read literally ---------------------------------------------------------------
+def enum_shipped_estimates(tier):
+    from vlib import molgen
+    from props.C15 import GAS, SURF
+    for L in shipped_libs():
+        gas = L in ('BensonGA', 'PPY')
+        metal = None if gas else ('Ru' if L == 'XieGA2022' else 'Pt')
+        pool = list(GAS) + list(molgen.REMAPPED) + (list(molgen.witness_pool(None)) if gas else
+                                                    [x.replace('{M}', metal) for x in SURF + molgen.REMAPPED_SURFACE] + list(molgen.witness_pool(metal)))
+        seen = set()
+        for smi in pool:
+            if smi not in seen:
+                seen.add(smi)
+                yield dict(kind='shipped-estimate', lib=L, smiles=smi)
+
+
+def shipped_libs():
+    from vlib import shipped
+    return shipped.LIBS
+
+
+def check_shipped_estimate(ctx, case):
+    """inside the range an estimate REPORTS every property it has data for is a finite number; outside it nothing comes back silently"""
+    from props.C05 import lib as load
+    m = _pg()
+    L = load(case['lib'])
+    smi = case['smiles']
+    try:
+        with warnings.catch_warnings():
+            warnings.simplefilter('ignore')
+            d = L.GetDescriptors(smi)
+            est = L.Estimate(d, 'thermochem')
+    except Exception:
+        ctx.event('shipped-estimate:not-estimable')
+        return
+    r = est.get_range()
+    groups = [L[k]['thermochem'] for k in d if d[k] != 0]
+    ctx.case(nontrivial=len(groups) >= 2, key=['shipped-estimate', case['lib'], smi], sample=dict(library=case['lib'], molecule=smi, reported_range=None if r is None else [float(r[0]), float(r[1])]))
+    if r is None or not (r[0] <= r[1]):
+        ctx.event('shipped-estimate:no-range')
+        return
+    ctx.event('shipped-estimate:%s' % case['lib'])
+    lo, hi = float(r[0]), float(r[1])
+    for X in PROPS:
+        need = {'CpoR': lambda g: bool(g.ND_Cp_data), 'HoRT': lambda g: g.ND_H_ref is not None, 'SoR': lambda g: g.ND_S_ref is not None,
+                'GoRT': lambda g: g.ND_H_ref is not None and g.ND_S_ref is not None}[X]
+        if not all(need(g) for g in groups) or not all(g.ND_Cp_data for g in groups):
+            continue
+        for T in (lo, hi, 0.5 * (lo + hi), lo + 0.97 * (hi - lo), lo + 0.03 * (hi - lo)):
+            res = evaluate(est, X, T)
+            ctx.count()
+            if res[0] == 'raise':
+                ctx.fail('inside-reported-range-raises:%s:%s' % (X, type(res[1]).__name__), '[%s %s] %s(%r) raised %s: %s although the estimate reports the range (%r, %r)'
+                         % (case['lib'], smi, X, T, type(res[1]).__name__, str(res[1])[:120], lo, hi))
+                return
+            if not (isinstance(res[1], numbers.Real) and math.isfinite(res[1])):
+                ctx.fail('inside-reported-range-not-finite:%s' % X, '[%s %s] %s(%r) = %r' % (case['lib'], smi, X, T, res[1]))
+                return
+        for T in (lo * (1 - 1e-6) if lo > 0 else -1.0, hi * (1 + 1e-6)):
+            res = evaluate(est, X, T)
+            ctx.count()
+            if res[0] != 'raise':
+                ctx.fail('outside-reported-range-returns-number:%s' % X, '[%s %s] %s(%r) = %r, reported range (%r, %r)' % (case['lib'], smi, X, T, res[1], lo, hi))
+                return
+
+
 def check_any(ctx, case):
-    return {'single': check_single, 'estimate': check_estimate, 'shipped': check_shipped}[case['kind']](ctx, case)
+    return {'single': check_single, 'estimate': check_estimate, 'shipped': check_shipped, 'shipped-estimate': check_shipped_estimate}[case['kind']](ctx, case)
 
 
 FAMILIES = [
     Family('single', check_any, strategy=lambda tier: single_case(), n=(3000, 160000)),
     Family('estimates', check_any, strategy=lambda tier: estimate_case(), n=(2000, 60000)),
     Family('shipped', check_any, enumerate=enum_shipped),
+    Family('shipped-estimates', check_any, enumerate=enum_shipped_estimates),
 ]
